@@ -243,6 +243,10 @@ def _rsa_pool(r, f, focus):
       pool.append(A.rsa_low_hamming(r))
     elif fam == "bit_pattern":
       pool.append(A.rsa_bit_pattern(r))
+      if r.random() < 0.7:
+        # mixed sizes in one batch: per-key limits (pattern sizes, bounds
+        # derived from the bit length) must not leak to the neighbours
+        pool.append(A.rsa_short(r, r.choice([512, 768, 1024])))
     elif fam == "roca":
       pool.append(A.rsa_roca(r))
     elif fam == "denylisted":
